@@ -83,6 +83,42 @@ def verify(src, name):
         shutil.rmtree(wt, ignore_errors=True)
 
 
+def verify_benign(src, name):
+    """A property-preserving change: tests pass with it, its own demo passes with and without it -> /verif/benign/<name>/."""
+    src = Path(src)
+    wt = Path("/tmp/sv-" + name)
+    if wt.exists():
+        sh("git -C /repo worktree remove --force %s" % wt)
+    rc, out = sh("git -C /repo worktree add --detach %s HEAD" % wt)
+    assert rc == 0, out
+    try:
+        rc0, out0 = sh("%s %s" % (PY, (src / "demo.py").resolve()), cwd=wt, timeout=900)
+        rc, out = sh("git apply %s" % (src / "patch.diff").resolve(), cwd=wt)
+        if rc != 0:
+            print("patch does not apply to HEAD:", out)
+            return False
+        rc1, out1 = sh("%s %s" % (PY, (src / "demo.py").resolve()), cwd=wt, timeout=900)
+        line, failed = tests(wt)
+        print("demo clean rc=%d, demo changed rc=%d; tests changed: %s" % (rc0, rc1, line))
+        if rc0 != 0 or rc1 != 0 or failed or "failed" in line or "error" in line:
+            print("NOT ACCEPTED", (out1 or out0).strip().splitlines()[-1:][:1])
+            return False
+        dst = VERIF / "benign" / name
+        dst.mkdir(parents=True, exist_ok=True)
+        shutil.copy(src / "patch.diff", dst / "patch.diff")
+        shutil.copy(src / "demo.py", dst / "demo.py")
+        meta = json.loads((src / "meta.json").read_text()) if (src / "meta.json").exists() else {}
+        meta["accepted"] = dict(base_commit=sh("git -C /repo rev-parse --short HEAD")[1].strip(),
+                                ran=["demo.py on clean tree -> exit 0", "git apply patch.diff; demo.py -> exit 0", "pytest test (changed): %s" % line])
+        meta.setdefault("checked_by", {})
+        (dst / "meta.json").write_text(json.dumps(meta, indent=1) + "\n")
+        print("ACCEPTED ->", dst)
+        return True
+    finally:
+        sh("git -C /repo worktree remove --force %s" % wt)
+        shutil.rmtree(wt, ignore_errors=True)
+
+
 def detect(name, prop, tier="quick"):
     d = VERIF / "seeded" / name
     rc, out = sh("git -C /repo status --porcelain --untracked-files=no")
@@ -99,7 +135,7 @@ def detect(name, prop, tier="quick"):
     print("exit", rc, "(%.0fs)" % (time.time() - t0))
     meta = json.loads((d / "meta.json").read_text())
     keys = [l.split("key=")[1].split(" detail=")[0] for l in lines if l.startswith("  key=")]
-    meta.setdefault("detected_by", {})["%s/%s" % (prop, tier)] = dict(exit=rc, keys=keys[:6])
+    meta.setdefault("detected_by" if root == "seeded" else "checked_by", {})["%s/%s" % (prop, tier)] = dict(exit=rc, keys=keys[:6])
     (d / "meta.json").write_text(json.dumps(meta, indent=1) + "\n")
     # the evidence file now describes a run on a modified tree: remove it so it is never committed by mistake
     ev = VERIF / "evidence" / (prop + ".json")
@@ -108,10 +144,11 @@ def detect(name, prop, tier="quick"):
     return rc
 
 
-def wdetect(name, prop, tier="quick"):
-    """Like detect, but on a scratch worktree (AOTOOLS_REPO) so that several seeds can be examined at once; /repo untouched."""
-    d = VERIF / "seeded" / name
-    wt = "/tmp/wd-%s" % name
+def wdetect(name, prop, tier="quick", root="seeded"):
+    """Like detect, but on a scratch worktree (AOTOOLS_REPO) so that several seeds can be examined at once; /repo untouched.
+    root="benign": the same for a property-preserving change (benign/<name>/) - there the check has to stay quiet."""
+    d = VERIF / root / name
+    wt = "/tmp/wd-%s-%s-%s" % (root, name, prop)
     sh("git -C /repo worktree remove --force %s" % wt)
     rc, out = sh("git -C /repo worktree add --detach %s HEAD" % wt)
     assert rc == 0, out
@@ -131,7 +168,7 @@ def wdetect(name, prop, tier="quick"):
     print("exit", rc, "(%.0fs)" % (time.time() - t0))
     meta = json.loads((d / "meta.json").read_text())
     keys = [l.split("key=")[1].split(" detail=")[0] for l in lines if l.startswith("  key=")]
-    meta.setdefault("detected_by", {})["%s/%s" % (prop, tier)] = dict(exit=rc, keys=keys[:6])
+    meta.setdefault("detected_by" if root == "seeded" else "checked_by", {})["%s/%s" % (prop, tier)] = dict(exit=rc, keys=keys[:6])
     (d / "meta.json").write_text(json.dumps(meta, indent=1) + "\n")
     return rc
 
@@ -139,6 +176,10 @@ def wdetect(name, prop, tier="quick"):
 if __name__ == "__main__":
     if sys.argv[1] == "wdetect":
         sys.exit(0 if wdetect(*sys.argv[2:5]) == 1 else 3)
+    if sys.argv[1] == "wquiet":          # benign change: exit 0 iff the check stays quiet
+        sys.exit(0 if wdetect(sys.argv[2], sys.argv[3], sys.argv[4] if len(sys.argv) > 4 else "quick", root="benign") == 0 else 3)
+    if sys.argv[1] == "verify-benign":
+        sys.exit(0 if verify_benign(sys.argv[2], sys.argv[3]) else 1)
     if sys.argv[1] == "verify":
         sys.exit(0 if verify(sys.argv[2], sys.argv[3]) else 1)
     if sys.argv[1] == "detect":
